@@ -94,8 +94,19 @@ class FastNetlist(Netlist):
     def settle(self):
         ev = self.ev
         ev.execute(self.comb)
+        n = 0
         while ev.commit():
             ev.execute(self.comb)
+            n += 1
+            if n > 2000:
+                raise RuntimeError("combinational logic does not settle (loop)")
+
+
+class Packed:
+    """Several signals presented to the model as one number (first signal lowest).  The widths are the ones the
+    harness asked the constructor for, never `len(signal)`: a mis-sized signal must show as a disagreement."""
+    def __init__(self, sigs, widths):
+        self.sigs, self.widths = list(sigs), list(widths)
 
 
 class PortInst:
@@ -114,22 +125,53 @@ class PortInst:
         self.last_outs = None
         self.stim = None          # closed-loop stimulus generator (object with .reset(), .next(rng, t, prev))
         self.mon_factory = None
+        self.broken = None        # exception raised while driving the (changed) implementation
 
     def apply(self, letter):
-        n = self.netlist
-        for s, v in zip(self.in_sigs, letter):
-            n.set(s, v)
-        n.settle()
         self.last_letter = letter
+        if self.broken:
+            return
+        try:
+            n = self.netlist
+            for s, v in zip(self.in_sigs, letter):
+                if isinstance(s, Packed):
+                    sh = 0
+                    for sig, w in zip(s.sigs, s.widths):
+                        n.set(sig, (v >> sh) & ((1 << w) - 1))
+                        sh += w
+                else:
+                    n.set(s, v)
+            n.settle()
+        except Exception as e:      # a changed implementation may fail while being driven
+            self.broken = "%s: %s" % (type(e).__name__, e)
 
     def sample(self):
-        n = self.netlist
-        outs = [n.getu(s) for s in self.out_sigs]
+        if self.broken:
+            self.last_outs = ["driving the implementation raised " + self.broken]
+            return self.last_outs
+        try:
+            n = self.netlist
+            outs = []
+            for s in self.out_sigs:
+                if isinstance(s, Packed):
+                    v, sh = 0, 0
+                    for sig, w in zip(s.sigs, s.widths):
+                        v |= n.getu(sig) << sh
+                        sh += w
+                    outs.append(v)
+                else:
+                    outs.append(n.getu(s))
+        except Exception as e:
+            self.broken = "%s: %s" % (type(e).__name__, e)
+            outs = ["driving the implementation raised " + self.broken]
         self.last_outs = outs
         return outs
 
     def nontrivial(self, letter, outs):
-        return self.is_event(letter, outs)
+        try:
+            return self.is_event(letter, outs)
+        except Exception:
+            return False
 
     def is_event(self, letter, outs):
         return False
@@ -140,10 +182,82 @@ class PortInst:
             prev = None
         else:
             prev = (self.last_letter, self.last_outs)
+            if self.broken:
+                prev = None
         return self.stim.next(rng, t, prev)
 
     def monitor(self):
-        return self.mon_factory()
+        return GuardedMonitor(self.mon_factory(), self)
+
+
+class GuardedMonitor:
+    """A monitor must never crash the check: an exception while judging a (changed) implementation is reported."""
+    def __init__(self, mon, inst):
+        self.mon, self.inst = mon, inst
+
+    def observe(self, letter, outs):
+        if self.inst.broken:
+            return "driving the implementation raised " + self.inst.broken
+        try:
+            return self.mon.observe(letter, outs)
+        except Exception as e:
+            return "monitor could not interpret the outputs (%s: %s)" % (type(e).__name__, e)
+
+
+class _DummyNetlist:
+    def snapshot(self):
+        return {}
+
+    def restore(self, snap):
+        pass
+
+    def state_key(self):
+        return ()
+
+    def tick(self, cds=("sys",)):
+        pass
+
+
+class BrokenInst:
+    """Stands in for an instance whose construction raised: every step disagrees with the model, so the failure is
+    reported as a correspondence break of this instance instead of crashing the whole check."""
+    def __init__(self, name, lean_open, letter, why):
+        self.name = name
+        self.lean_open = lean_open
+        self.netlist = _DummyNetlist()
+        self.alphabet = [tuple(letter)]
+        self.qual = [None]
+        self.why = "building the implementation raised " + why
+        self.inputs = self.outputs = None
+
+    def apply(self, letter):
+        pass
+
+    def sample(self):
+        return [self.why]
+
+    def nontrivial(self, letter, outs):
+        return False
+
+    def gen(self, rng, t):
+        return self.alphabet[0]
+
+
+def _try(build, name, lean_open, letter):
+    try:
+        return build()
+    except Exception as e:
+        return BrokenInst(name, lean_open, letter, "%s: %s" % (type(e).__name__, e))
+
+
+def guarded(make, name, lean_open, letter):
+    """Wrap an instance factory: a constructor that raises (on a changed implementation) yields a BrokenInst."""
+    def mk():
+        try:
+            return make()
+        except Exception as e:
+            return BrokenInst(name, lean_open, letter, "%s: %s" % (type(e).__name__, e))
+    return mk
 
 
 def closed_loop_run(inst, rng, cycles, monitor=True):
@@ -262,7 +376,7 @@ class FramingMonitor:
         self.exp_complete = False    # all payload beats of the current packet have been accepted
         self.got = 0                 # bytes of the current packet delivered so far
         self.started = False         # header of the current packet known (first beat offered)
-        self.next_packets = []       # not used: one packet at a time (the packetizer has no storage)
+        self.stall = 0               # consecutive cycles: beat on offer, source ready, beat not accepted
 
     def observe(self, letter, outs):
         if self.off:
@@ -276,6 +390,17 @@ class FramingMonitor:
             self.off = True          # producer broke the contract
             return None
         msg = None
+        # progress: with a beat on offer (or a flush pending) and the source ready something must be delivered,
+        # and the beat must be accepted once the header has gone out
+        if r and not ovalid and (v or (self.started and self.exp_complete)):
+            return "source ready and %s, but nothing is delivered (stuck)" % (
+                "a beat on offer" if v else "the packet's last bytes still to be flushed")
+        if v and r and not sready:
+            self.stall += 1
+            if self.stall > self.hdr.length // self.B + 3:
+                return "beat on offer and source ready for %d cycles, beat never accepted" % self.stall
+        else:
+            self.stall = 0
         if v and not self.started:
             hb = self.hdr.ref_encode(hv)
             if hb is None:
@@ -326,29 +451,33 @@ def packetizer_inst(name, B, H, fields, swap, data_values=None, hdr_values=None,
                     min_len=1, max_len=8, alphabet=True):
     dw = 8 * B
     hs = HdrSpec(fields, H, swap)
-    sd = stream.EndpointDescription([("data", dw)], hs.header.get_layout())
-    rd = stream.EndpointDescription([("data", dw)])
-    m = packet.Packetizer(sd, rd, hs.header)
-    fsig = [getattr(m.sink, k) for k in hs.names]
-    ins = [m.sink.valid, m.sink.data, m.sink.last] + fsig + [m.source.ready]
-    outs = [m.sink.ready, m.source.valid, m.source.data, m.source.last]
-    letters = []
-    if alphabet:
-        for v in (0, 1):
-            for r in (0, 1):
-                for d in data_values:
-                    for l in (0, 1):
-                        for hv in hdr_values:
-                            letters.append((v, d, l) + tuple(hv) + (r,))
-    inst = PortInst(name, m, "packetizer %d %d %s" % (B, H, hs.lean_args()), ins, outs, [None, None, 1, 1], letters)
-    inst.hdr = hs
     nf = len(hs.table)
-    inst.is_event = lambda letter, o: bool((letter[0] and o[0]) or (o[1] and letter[3 + nf]))
-    inst.stim = PacketizerStim(PacketProducer(dw, hs.max_vals(), min_len, max_len, garbage,
-                                              None if not alphabet else data_values,
-                                              None if not alphabet else hdr_values))
-    inst.mon_factory = lambda: FramingMonitor(B, hs)
-    return inst
+    lean_open = "packetizer %d %d %s" % (B, H, hs.lean_args())
+
+    def build():
+        sd = stream.EndpointDescription([("data", dw)], hs.header.get_layout())
+        rd = stream.EndpointDescription([("data", dw)])
+        m = packet.Packetizer(sd, rd, hs.header)
+        fsig = [getattr(m.sink, k) for k in hs.names]
+        ins = [m.sink.valid, m.sink.data, m.sink.last] + fsig + [m.source.ready]
+        outs = [m.sink.ready, m.source.valid, m.source.data, m.source.last]
+        letters = []
+        if alphabet:
+            for v in (0, 1):
+                for r in (0, 1):
+                    for d in data_values:
+                        for l in (0, 1):
+                            for hv in hdr_values:
+                                letters.append((v, d, l) + tuple(hv) + (r,))
+        inst = PortInst(name, m, lean_open, ins, outs, [None, None, 1, 1], letters)
+        inst.hdr = hs
+        inst.is_event = lambda letter, o: bool((letter[0] and o[0]) or (o[1] and letter[3 + nf]))
+        inst.stim = PacketizerStim(PacketProducer(dw, hs.max_vals(), min_len, max_len, garbage,
+                                                  None if not alphabet else data_values,
+                                                  None if not alphabet else hdr_values))
+        inst.mon_factory = lambda: FramingMonitor(B, hs)
+        return inst
+    return _try(build, name, lean_open, (0,) * (4 + nf))
 
 
 # ---------------------------------------------------------------------------------------------------------
@@ -420,6 +549,8 @@ class DeframingMonitor:
         sready, ovalid, odata, olast = outs[0:4]
         fields = outs[4:]
         msg = None
+        if v and r and not sready:
+            return "beat on offer and source ready, but sink.ready is low (stalled)"
         if v and sready:
             cur = self.pk[-1]
             cur["bytes"] += to_bytes(d, self.B)
@@ -463,29 +594,32 @@ def depacketizer_inst(name, B, H, fields, swap, data_values=None, min_len=None, 
                       garbage="hold"):
     dw = 8 * B
     hs = HdrSpec(fields, H, swap)
-    sd = stream.EndpointDescription([("data", dw)])
-    rd = stream.EndpointDescription([("data", dw)], hs.header.get_layout())
-    m = packet.Depacketizer(sd, rd, hs.header)
-    fsig = [getattr(m.source, k) for k in hs.names]
-    ins = [m.sink.valid, m.sink.data, m.sink.last, m.source.ready]
-    outs = [m.sink.ready, m.source.valid, m.source.data, m.source.last] + fsig
-    letters = []
-    if alphabet:
-        for v in (0, 1):
-            for r in (0, 1):
-                for d in data_values:
-                    for l in (0, 1):
-                        letters.append((v, d, l, r))
-    inst = PortInst(name, m, "depacketizer %d %d %s" % (B, H, hs.lean_args()), ins, outs,
-                    [None, None, 1, 1] + [1] * len(fsig), letters)
-    inst.hdr = hs
-    inst.is_event = lambda letter, o: bool((letter[0] and o[0]) or (o[1] and letter[3]))
-    W = (8 * H) // dw
-    lo = W + 2 if H % B else W + 1        # header beats + at least one whole payload beat
-    inst.stim = DepacketizerStim(FramedProducer(dw, min_len or lo, max_len or lo + 6,
-                                                data_values if alphabet else None, garbage))
-    inst.mon_factory = lambda: DeframingMonitor(B, H, hs)
-    return inst
+    lean_open = "depacketizer %d %d %s" % (B, H, hs.lean_args())
+
+    def build():
+        sd = stream.EndpointDescription([("data", dw)])
+        rd = stream.EndpointDescription([("data", dw)], hs.header.get_layout())
+        m = packet.Depacketizer(sd, rd, hs.header)
+        fsig = [getattr(m.source, k) for k in hs.names]
+        ins = [m.sink.valid, m.sink.data, m.sink.last, m.source.ready]
+        outs = [m.sink.ready, m.source.valid, m.source.data, m.source.last] + fsig
+        letters = []
+        if alphabet:
+            for v in (0, 1):
+                for r in (0, 1):
+                    for d in data_values:
+                        for l in (0, 1):
+                            letters.append((v, d, l, r))
+        inst = PortInst(name, m, lean_open, ins, outs, [None, None, 1, 1] + [1] * len(fsig), letters)
+        inst.hdr = hs
+        inst.is_event = lambda letter, o: bool((letter[0] and o[0]) or (o[1] and letter[3]))
+        W = (8 * H) // dw
+        lo = W + 2 if H % B else W + 1        # header beats + at least one whole payload beat
+        inst.stim = DepacketizerStim(FramedProducer(dw, min_len or lo, max_len or lo + 6,
+                                                    data_values if alphabet else None, garbage))
+        inst.mon_factory = lambda: DeframingMonitor(B, H, hs)
+        return inst
+    return _try(build, name, lean_open, (0, 0, 0, 0))
 
 
 # ---------------------------------------------------------------------------------------------------------
@@ -494,7 +628,7 @@ def depacketizer_inst(name, B, H, fields, swap, data_values=None, min_len=None, 
 class RoundTripMonitor:
     """Scoreboard for Packetizer -> Depacketizer: every delivered beat is the oldest accepted beat not yet
     delivered (data, last) and carries the header fields of *its* packet's first beat."""
-    def __init__(self, hdr):
+    def __init__(self, hdr, B=1):
         self.hdr = hdr
         self.nf = len(hdr.table)
         self.q = []
@@ -502,6 +636,9 @@ class RoundTripMonitor:
         self.cur_hdr = None
         self.off = False
         self.judge_hdr = hdr.ref_encode([0] * self.nf) is not None
+        self.bound = hdr.length // B + 4      # header beats + realignment latency
+        self.stall = 0                        # consecutive cycles: beat on offer, source ready, not accepted
+        self.lag = 0                          # consecutive ready cycles with an accepted beat still undelivered
 
     def observe(self, letter, outs):
         if self.off:
@@ -515,6 +652,18 @@ class RoundTripMonitor:
         if self.pending is not None and (not v or beat != self.pending):
             self.off = True
             return None
+        if v and r and not sready:
+            self.stall += 1
+            if self.stall > self.bound:
+                return "beat on offer and source ready for %d cycles, never accepted (stuck)" % self.stall
+        else:
+            self.stall = 0
+        if len(self.q) > 1 and r and not ovalid:
+            self.lag += 1
+            if self.lag > self.bound:
+                return "%d accepted beats undelivered although the source was ready for %d cycles" % (len(self.q), self.lag)
+        elif ovalid and r:
+            self.lag = 0
         if v and sready:
             if self.cur_hdr is None:
                 self.cur_hdr = hv
@@ -535,8 +684,14 @@ class RoundTripMonitor:
         return msg
 
 
-def pkdpk_inst(name, B, H, fields, swap, data_values=None, hdr_values=None, garbage="hold", min_len=1,
-               max_len=8, alphabet=True, idle_garbage=True):
+def pkdpk_inst(name, B, H, fields, swap, *a, **kw):
+    hs = HdrSpec(fields, H, swap)
+    return _try(lambda: _pkdpk_build(name, B, H, fields, swap, *a, **kw), name,
+                "pkdpk %d %d %s" % (B, H, hs.lean_args()), (0,) * (4 + len(hs.table)))
+
+
+def _pkdpk_build(name, B, H, fields, swap, data_values=None, hdr_values=None, garbage="hold", min_len=1,
+                 max_len=8, alphabet=True, idle_garbage=True):
     dw = 8 * B
     hs = HdrSpec(fields, H, swap)
     pd = stream.EndpointDescription([("data", dw)], hs.header.get_layout())
@@ -574,7 +729,7 @@ def pkdpk_inst(name, B, H, fields, swap, data_values=None, hdr_values=None, garb
     inst.stim = PacketizerStim(PacketProducer(dw, hs.max_vals(), min_len, max_len, garbage,
                                               None if not alphabet else data_values,
                                               None if not alphabet else hdr_values))
-    inst.mon_factory = lambda: RoundTripMonitor(hs)
+    inst.mon_factory = lambda: RoundTripMonitor(hs, B)
     return inst
 
 
@@ -608,16 +763,31 @@ class FifoStim:
 class PacketFifoMonitor:
     """Per-packet param/payload association: source.valid only while a complete packet is stored; delivered
     beats are the accepted beats in order; every beat of a packet carries the params pushed with its last beat;
-    at most payload_depth beats are stored."""
-    def __init__(self, pd):
-        self.pd = pd
+    at most payload_depth (+1 when buffered) beats are stored.  Progress: the sink is ready while fewer than
+    payload_depth beats and fewer than param_depth+1 complete packets are stored; a stored complete packet shows
+    at the source within 3 cycles.  `cap` = payload capacity, `pdepth` / `qdepth` = depths the two FIFOs must
+    have according to the constructor arguments."""
+    def __init__(self, cap, pdepth=None, qdepth=None):
+        self.pd = cap
+        self.pdepth, self.qdepth = pdepth, qdepth
         self.q = []            # accepted, undelivered beats: [data, last, param or None]
         self.open_from = 0     # index in q of the first beat of the packet still being received
+        self.hidden = 0        # consecutive cycles: complete packet stored, source.valid low
 
     def observe(self, letter, outs):
         v, d, p, l, r = letter[0:5]
         sready, ovalid, odata, oparam, ofirst, olast = outs[0:6]
         msg = None
+        ncomplete = sum(1 for b in self.q[:self.open_from] if b[1])
+        if self.pdepth is not None and v and not sready and len(self.q) < self.pdepth and ncomplete < self.qdepth:
+            return "sink.ready low although only %d beats / %d complete packets are stored (depths %d / %d)" % (
+                len(self.q), ncomplete, self.pdepth, self.qdepth)
+        if self.open_from > 0 and not ovalid:
+            self.hidden += 1
+            if self.hidden > 3:
+                return "a complete packet has been stored for %d cycles but source.valid stays low" % self.hidden
+        else:
+            self.hidden = 0
         # the FIFO is store-and-forward: judge the source against what was stored before this cycle
         if ovalid:
             if self.open_from == 0:
@@ -637,13 +807,19 @@ class PacketFifoMonitor:
                 for k in range(self.open_from, len(self.q)):
                     self.q[k][2] = p
                 self.open_from = len(self.q)
-        if msg is None and len(self.q) > self.pd + 1:
-            msg = "more than payload_depth+1 beats in flight"
+        if msg is None and len(self.q) > self.pd:
+            msg = "more than %d beats stored (payload_depth%s)" % (self.pd, " + output register" if self.pdepth != self.pd else "")
         return msg
 
 
-def packetfifo_inst(name, pd, qd=None, buffered=False, dwid=1, pwid=1, data_values=(0, 1), param_values=(0, 1),
-                    alphabet=True, tokens=None, max_len=None):
+def packetfifo_inst(name, pd, qd=None, buffered=False, *a, **kw):
+    qdepth = (qd if qd is not None else pd) + 1
+    return _try(lambda: _packetfifo_build(name, pd, qd, buffered, *a, **kw), name,
+                "packetfifo%s %d %d" % ("_buffered" if buffered else "", pd, qdepth), (0, 0, 0, 0, 0))
+
+
+def _packetfifo_build(name, pd, qd=None, buffered=False, dwid=1, pwid=1, data_values=(0, 1), param_values=(0, 1),
+                      alphabet=True, tokens=None, max_len=None):
     layout = stream.EndpointDescription([("data", dwid)], [("p", pwid)])
     m = packet.PacketFIFO(layout, payload_depth=pd, param_depth=qd, buffered=buffered)
     ins = [m.sink.valid, m.sink.data, m.sink.p, m.sink.last, m.source.ready]
@@ -661,22 +837,23 @@ def packetfifo_inst(name, pd, qd=None, buffered=False, dwid=1, pwid=1, data_valu
     inst.is_event = lambda letter, o: bool((letter[0] and o[0]) or (o[1] and letter[4]))
     inst.stim = FifoStim(dwid, pwid, max_len or pd + 1, data_values if alphabet else None,
                          param_values if alphabet else None)
-    inst.mon_factory = lambda: PacketFifoMonitor(pd + (1 if buffered else 0))
+    inst.mon_factory = lambda: PacketFifoMonitor(pd + (1 if buffered else 0), pd, qdepth)
     return inst
 
 
 # ---------------------------------------------------------------------------------------------------------
-# Arbiter
+# Arbiter   (payload = data plus `first`, packed as data | first << dwid: `first` must be forwarded as well)
 
 class ArbiterStim:
     """n independent packet sources; a source may pause (valid = 0) in the middle of a packet."""
-    def __init__(self, n, dwid, max_len=4):
-        self.n, self.dwid, self.max_len = n, dwid, max_len
+    def __init__(self, n, pwid, max_len=4):
+        self.n, self.pwid, self.max_len = n, pwid, max_len
         self.reset()
 
     def reset(self):
         self.left = [0] * self.n
         self.cur = [None] * self.n
+        self.offered = [False] * self.n
 
     def next(self, rng, t, prev):
         pv, pr = regime(rng, t)
@@ -685,24 +862,35 @@ class ArbiterStim:
             if prev and prev[0][3 * k] and prev[1][k]:
                 self.cur[k] = None
                 self.left[k] -= 1
+                self.offered[k] = False
             if self.cur[k] is None and rng.random() < pv * (0.3 + 0.7 * ((t // 200 + k) % 2)):
                 if self.left[k] <= 0:
                     self.left[k] = rng.randint(1, self.max_len)
-                self.cur[k] = (rng.randint(0, (1 << self.dwid) - 1), 1 if self.left[k] == 1 else 0)
-            if self.cur[k] is not None and rng.random() < 0.9:
+                d = rng.choice((0, (1 << self.pwid) - 1, rng.getrandbits(self.pwid)))
+                self.cur[k] = (d, 1 if self.left[k] == 1 else 0)
+            # a source may pause between beats (also inside a packet) but holds a beat once it is on offer
+            if self.cur[k] is not None and (self.offered[k] or rng.random() < 0.8):
                 letter += [1, self.cur[k][0], self.cur[k][1]]
+                self.offered[k] = True
             else:
-                letter += [0, rng.randint(0, (1 << self.dwid) - 1), rng.randint(0, 1)]
+                letter += [0, rng.getrandbits(self.pwid), rng.randint(0, 1)]
         letter.append(1 if rng.random() < pr else 0)
         return tuple(letter)
 
 
 class ArbiterMonitor:
     """Single source per packet: each beat transferred to the slave comes from exactly one master, carries
-    that master's beat, and after a non-last beat of master i the next transferred beat is master i's."""
+    that master's beat (full width, `first` included), and after a non-last beat of master i the next
+    transferred beat is master i's.  Progress and fairness: with no packet in progress, an offered beat is
+    transferred within 3 ready cycles; while master k keeps offering a beat, the other masters together complete
+    at most n-1 packets before k's beat is taken (round-robin bounded wait)."""
     def __init__(self, n):
         self.n = n
         self.owner = None
+        self.idle_ready = 0            # consecutive cycles: no packet in progress, some valid, slave ready, no transfer
+        self.waiting = [None] * n      # packets completed by others since master k started offering its beat
+        self.pending = [None] * n      # beat offered and not yet taken (stream contract of the masters)
+        self.live = True               # progress / fairness are judged only while every master obeys the contract
 
     def observe(self, letter, outs):
         n = self.n
@@ -715,6 +903,12 @@ class ArbiterMonitor:
             return "beats of masters %r accepted in the same cycle" % takers
         if bool(takers) != bool(sv and r):
             return "master-side transfer %r but slave-side transfer %r" % (takers, bool(sv and r))
+        for k in range(n):
+            beat = tuple(letter[3 * k:3 * k + 3])
+            if self.pending[k] is not None and beat != self.pending[k]:
+                self.live = False       # a master withdrew or changed an offered beat
+            self.pending[k] = beat if (beat[0] and not readys[k]) else None
+        anyvalid = any(letter[3 * k] for k in range(n))
         if takers:
             k = takers[0]
             if (sd, sl) != (letter[3 * k + 1], letter[3 * k + 2]):
@@ -722,43 +916,79 @@ class ArbiterMonitor:
             elif self.owner is not None and self.owner != k:
                 msg = "beat of master %d inside a packet of master %d (interleaved)" % (k, self.owner)
             self.owner = None if sl else k
+            self.idle_ready = 0
+            if sl:
+                for j in range(n):
+                    if j != k and self.waiting[j] is not None:
+                        self.waiting[j] += 1
+                        if msg is None and self.live and self.waiting[j] > n - 1:
+                            msg = "master %d kept offering a beat while the others completed %d packets (starved)" % (
+                                j, self.waiting[j])
+            self.waiting[k] = None
+        else:
+            if self.owner is None and anyvalid and r:
+                self.idle_ready += 1
+                if self.live and self.idle_ready > 3:
+                    msg = "no packet in progress, a beat on offer and the slave ready for %d cycles: no transfer" % self.idle_ready
+            else:
+                self.idle_ready = 0
+        for k in range(n):
+            if letter[3 * k]:
+                if self.waiting[k] is None and not (takers and takers[0] == k):
+                    self.waiting[k] = 0
+            else:
+                self.waiting[k] = None      # the request was withdrawn (only a continuous request is bounded)
         return msg
 
 
-def arbiter_inst(name, n, dwid=1, data_values=(0, 1), alphabet=True):
-    desc = stream.EndpointDescription([("data", dwid)])
-    masters = [stream.Endpoint(desc) for _ in range(n)]
-    slave = stream.Endpoint(desc)
+def arbiter_inst(name, n, dwid=1, payload_values=(0, 1, 2, 3), alphabet=True):
+    lean_open = "arbiter %d" % n
+    pwid = dwid + 1
 
-    class DUT(Module):
-        def __init__(self):
-            self.submodules.arb = packet.Arbiter(list(masters), slave)
-    m = DUT()
-    ins = []
-    for ep in masters:
-        ins += [ep.valid, ep.data, ep.last]
-    ins.append(slave.ready)
-    outs = [ep.ready for ep in masters] + [slave.valid, slave.data, slave.last, m.arb.grant]
-    letters = []
-    if alphabet:
-        per = [(v, d, l) for v in (0, 1) for d in data_values for l in (0, 1)]
-        import itertools
-        for combo in itertools.product(per, repeat=n):
-            for r in (0, 1):
-                letters.append(tuple(x for c in combo for x in c) + (r,))
-    inst = PortInst(name, m, "arbiter %d" % n, ins, outs, [None] * n + [None, n, n, None], letters)
-    inst.is_event = lambda letter, o: bool(o[n] and letter[3 * n])
-    inst.stim = ArbiterStim(n, dwid)
-    inst.mon_factory = lambda: ArbiterMonitor(n)
-    return inst
+    def build():
+        desc = stream.EndpointDescription([("data", dwid)])
+        masters = [stream.Endpoint(desc) for _ in range(n)]
+        slave = stream.Endpoint(desc)
+
+        class DUT(Module):
+            def __init__(self):
+                self.submodules.arb = packet.Arbiter(list(masters), slave)
+        m = DUT()
+        ins = []
+        for ep in masters:
+            ins += [ep.valid, Packed([ep.data, ep.first], [dwid, 1]), ep.last]
+        ins.append(slave.ready)
+        outs = [ep.ready for ep in masters] + [slave.valid, Packed([slave.data, slave.first], [dwid, 1]), slave.last,
+                                               m.arb.grant]
+        letters = []
+        if alphabet:
+            per = [(v, d, l) for v in (0, 1) for d in payload_values for l in (0, 1)]
+            import itertools
+            for combo in itertools.product(per, repeat=n):
+                for r in (0, 1):
+                    letters.append(tuple(x for c in combo for x in c) + (r,))
+        inst = PortInst(name, m, lean_open, ins, outs, [None] * n + [None, n, n, None], letters)
+        inst.is_event = lambda letter, o: bool(o[n] and letter[3 * n])
+        inst.stim = ArbiterStim(n, pwid)
+        inst.mon_factory = lambda: ArbiterMonitor(n)
+        return inst
+    return _try(build, name, lean_open, (0,) * (3 * n + 1))
 
 
 # ---------------------------------------------------------------------------------------------------------
 # Dispatcher
 
+def sel_width(m_slaves, one_hot):
+    """Width of `Dispatcher.sel` as the constructor arguments define it (one bit per slave when one_hot, else a
+    binary index) — computed here, never read from the implementation."""
+    if one_hot:
+        return max(1, m_slaves)
+    return max(1, (m_slaves - 1).bit_length())
+
+
 class DispatcherStim:
-    def __init__(self, m, one_hot, dwid, selw, max_len=4):
-        self.m, self.one_hot, self.dwid, self.selw, self.max_len = m, one_hot, dwid, selw, max_len
+    def __init__(self, m, one_hot, pwid, selw, max_len=4):
+        self.m, self.one_hot, self.pwid, self.selw, self.max_len = m, one_hot, pwid, selw, max_len
         self.reset()
 
     def reset(self):
@@ -774,25 +1004,29 @@ class DispatcherStim:
         if self.cur is None and rng.random() < pv:
             if self.left <= 0:
                 self.left = rng.randint(1, self.max_len)
-            self.cur = (rng.randint(0, (1 << self.dwid) - 1), 1 if self.left == 1 else 0)
+            self.cur = (rng.choice((0, (1 << self.pwid) - 1, rng.getrandbits(self.pwid))), 1 if self.left == 1 else 0)
         if rng.random() < 0.3:               # the selector flips at any time, also in the middle of a packet
             if self.one_hot and rng.random() < 0.8:
                 self.sel = 1 << rng.randrange(self.m)
+            elif rng.random() < 0.7:
+                self.sel = rng.randrange(max(1, self.m))
             else:
                 self.sel = rng.randint(0, (1 << self.selw) - 1)
         if self.cur is not None:
             beat = (1,) + self.cur
         else:
-            beat = (0, rng.randint(0, (1 << self.dwid) - 1), rng.randint(0, 1))
+            beat = (0, rng.getrandbits(self.pwid), rng.randint(0, 1))
         return beat + (self.sel,) + tuple(1 if rng.random() < pr else 0 for _ in range(self.m))
 
 
 class DispatcherMonitor:
-    """One destination per packet: every transferred beat goes to at most one slave and arrives unchanged; the
-    destination of a packet's first beat is the slave addressed by `sel` in the cycle of that transfer (no slave
-    if `sel` addresses none: the packet is drained); all further beats up to `last` go to the same place."""
-    def __init__(self, m, one_hot):
-        self.m, self.one_hot = m, one_hot
+    """One destination per packet: every transferred beat goes to at most one slave and arrives unchanged (full
+    width, `first` included); the destination of a packet's first beat is the slave addressed by `sel` in the
+    cycle of that transfer (no slave if `sel` addresses none: the packet is drained); all further beats up to
+    `last` go to the same place.  Progress: a beat offered to a ready slave (or to nobody) is taken in that very
+    cycle.  `plain` = one slave without one_hot: the constructor connects master and slave directly."""
+    def __init__(self, m, one_hot, plain=False):
+        self.m, self.one_hot, self.plain = m, one_hot, plain
         self.dest = "none-yet"       # destination of the packet in progress
 
     def observe(self, letter, outs):
@@ -805,6 +1039,12 @@ class DispatcherMonitor:
             return "beat presented to slaves %r at once" % active
         if active and not v:
             return "slave %d sees valid without master.valid" % active[0]
+        if v:
+            # progress: the beat is visible somewhere or drained, and a ready destination takes it now
+            if active and letter[4 + active[0]] and not mready:
+                return "slave %d is ready but master.ready is low" % active[0]
+            if not active and not mready:
+                return "beat presented to no slave and not drained (master.ready low)"
         if not (v and mready):
             return None
         # a beat is transferred at the master
@@ -815,7 +1055,10 @@ class DispatcherMonitor:
             if sl[dest][1:] != (d, l):
                 return "slave %d got %r, master sent %r" % (dest, sl[dest][1:], (d, l))
         msg = None
-        if self.dest == "none-yet":
+        if self.plain:
+            if dest != 0:
+                msg = "single slave without one_hot: beat went to %r" % (dest,)
+        elif self.dest == "none-yet":
             keys = [(1 << k) if self.one_hot else k for k in range(m)]
             want = keys.index(sel) if sel in keys else None
             if dest != want:
@@ -826,34 +1069,42 @@ class DispatcherMonitor:
         return msg
 
 
-def dispatcher_inst(name, m_slaves, one_hot=False, dwid=1, data_values=(0, 1), alphabet=True, sel_values=None):
-    desc = stream.EndpointDescription([("data", dwid)])
-    master = stream.Endpoint(desc)
-    slaves = [stream.Endpoint(desc) for _ in range(m_slaves)]
+def dispatcher_inst(name, m_slaves, one_hot=False, dwid=1, payload_values=(0, 1, 2, 3), alphabet=True,
+                    sel_values=None):
+    lean_open = "dispatcher %d %d" % (m_slaves, int(one_hot))
+    pwid = dwid + 1
+    selw = sel_width(m_slaves, one_hot)
 
-    class DUT(Module):
-        def __init__(self):
-            self.submodules.disp = packet.Dispatcher(master, list(slaves), one_hot=one_hot)
-    m = DUT()
-    sel = m.disp.sel
-    ins = [master.valid, master.data, master.last, sel] + [ep.ready for ep in slaves]
-    outs = [master.ready]
-    qual = [None]
-    for k, ep in enumerate(slaves):
-        outs += [ep.valid, ep.data, ep.last]
-        qual += [None, 1 + 3 * k, 1 + 3 * k]
-    letters = []
-    if alphabet:
-        import itertools
-        sv = sel_values if sel_values is not None else list(range(1 << len(sel)))
-        for v in (0, 1):
-            for d in data_values:
-                for l in (0, 1):
-                    for s in sv:
-                        for rs in itertools.product((0, 1), repeat=m_slaves):
-                            letters.append((v, d, l, s) + rs)
-    inst = PortInst(name, m, "dispatcher %d %d" % (m_slaves, int(one_hot)), ins, outs, qual, letters)
-    inst.is_event = lambda letter, o: bool(letter[0] and o[0])
-    inst.stim = DispatcherStim(m_slaves, one_hot, dwid, len(sel))
-    inst.mon_factory = lambda: DispatcherMonitor(m_slaves, one_hot)
-    return inst
+    def build():
+        desc = stream.EndpointDescription([("data", dwid)])
+        master = stream.Endpoint(desc)
+        slaves = [stream.Endpoint(desc) for _ in range(m_slaves)]
+
+        class DUT(Module):
+            def __init__(self):
+                self.submodules.disp = packet.Dispatcher(master, list(slaves), one_hot=one_hot)
+        m = DUT()
+        sel = m.disp.sel
+        ins = [master.valid, Packed([master.data, master.first], [dwid, 1]), master.last, sel] + \
+              [ep.ready for ep in slaves]
+        outs = [master.ready]
+        qual = [None]
+        for k, ep in enumerate(slaves):
+            outs += [ep.valid, Packed([ep.data, ep.first], [dwid, 1]), ep.last]
+            qual += [None, 1 + 3 * k, 1 + 3 * k]
+        letters = []
+        if alphabet:
+            import itertools
+            sv = sel_values if sel_values is not None else list(range(1 << selw))
+            for v in (0, 1):
+                for d in payload_values:
+                    for l in (0, 1):
+                        for sx in sv:
+                            for rs in itertools.product((0, 1), repeat=m_slaves):
+                                letters.append((v, d, l, sx) + rs)
+        inst = PortInst(name, m, lean_open, ins, outs, qual, letters)
+        inst.is_event = lambda letter, o: bool(letter[0] and o[0])
+        inst.stim = DispatcherStim(m_slaves, one_hot, pwid, selw)
+        inst.mon_factory = lambda: DispatcherMonitor(m_slaves, one_hot, plain=(m_slaves == 1 and not one_hot))
+        return inst
+    return _try(build, name, lean_open, (0,) * (4 + m_slaves))
